@@ -1,5 +1,6 @@
 (** C11 - PUB/XPUB deliver a message to a subscriber iff a subscription is a prefix.  Property theorems only. *)
 From ZV Require Import Base.Bytes Base.Res Spec.PrefixMultiset Model.Codec Model.World Proofs.PubSubProofs.
+From ZV Require Proofs.PubSubWire.
 
 Theorem C11_gen_opcodes :
   Gen.pub_op_sub = 1 /\ Gen.pub_op_unsub = 0 /\ Gen.xpub_op_sub = 1 /\ Gen.xpub_op_unsub = 0 /\
@@ -42,3 +43,17 @@ Theorem C11_exactly_once : forall w first rest, NoDup (w_peers w) ->
     c_wire c' = c_wire c ++ (if memN k (w_peers w) && matches (c_subs c) first then encode_frames (first :: rest) else []).
 Proof. exact publish_exactly_once. Qed.
 Print Assumptions C11_exactly_once.
+
+(** over the wire (C13 + C01/C02 + the above composed): the subscription messages a SUB socket writes for ANY
+    history of subscribe / unsubscribe calls, arriving at a PUB socket in ANY chunking, make the PUB socket
+    deliver a published message to that subscriber iff a CURRENT subscription of the SUB socket is a prefix
+    of the message's first frame *)
+Theorem C11_pubsub_over_the_wire : forall k j h chunks c m,
+  Forall PubSubWire.sub_op h ->
+  get_conn k (w_conns (PubSubWire.exec (world0 SUB) (OAttach k None :: h))) = Some c ->
+  concat chunks = c_wire c ->
+  m <> [] ->
+  World.run (PubSubWire.exec (world0 PUB) (OAttach j None :: map (OFeed j) chunks ++ [OSettle])) [OSend m; OWire j] =
+  [BSendOk; BWire j (if matches (w_subs (PubSubWire.exec (world0 SUB) (OAttach k None :: h))) (hd [] m) then encode_frames m else [])].
+Proof. exact PubSubWire.pubsub_over_the_wire. Qed.
+Print Assumptions C11_pubsub_over_the_wire.
